@@ -103,3 +103,8 @@ pub open spec fn rr_decoded_at(b: Seq<u8>, o1: int, rr: RR, end: int) -> bool {
     &&& ((rr.rdata is Other) <==> opaque_type(rr.rrtype))
     &&& (rr.rdata is Other ==> end == o1 + 10 + (b[o1 + 8] as int * 256 + b[o1 + 9] as int) && end <= b.len() && rr.rdata->Other_0@ == b.subrange(o1 + 10, end))
 }
+// RFC 6891 6.1.2: one EDNS option on the wire = OPTION-CODE, OPTION-LENGTH (both big-endian 16 bit), OPTION-DATA
+pub open spec fn enc_opt1(o: EdnsOption) -> Seq<u8> {
+    seq![(o.code.0 >> 8) as u8, (o.code.0 & 0xFF) as u8, ((o.data@.len() as u16) >> 8) as u8, ((o.data@.len() as u16) & 0xFF) as u8] + o.data@
+}
+pub open spec fn enc_opts(s: Seq<EdnsOption>, n: int) -> Seq<u8> decreases n { if n <= 0 { Seq::empty() } else { enc_opts(s, n - 1) + enc_opt1(s[n - 1]) } }
